@@ -190,6 +190,46 @@ func c18Run(out *vh.Out, op string) {
 			}
 		}
 	}
+	// the local part is opaque: whatever the report type does to the domain (A-labels / U-labels),
+	// every record is named under exactly the local-part bytes that were handed in - group i is
+	// record i (GenerateDSN writes the groups in the order of the records)
+	if len(p.Rcpts) == len(g.rcpts) {
+		for i, rc := range g.rcpts {
+			if len(p.Rcpts[i]["Final-Recipient"]) == 0 {
+				continue
+			}
+			_, a := vdsn.SplitTyped(p.Rcpts[i]["Final-Recipient"][0])
+			if !vdsn.LocalPartKept(a, rc.final) {
+				out.Violation("C18/failed-recipient-not-listed", op, fmt.Sprintf("record %d names %q, the report shows %q: the local part was altered", i+1, rc.final, a))
+				break
+			}
+		}
+	}
+	if g.xs != "" && p.Mta != nil {
+		if v := p.Mta["X-Maddy-Sender"]; len(v) != 1 {
+			out.Violation("C18/sender-address-altered", op, fmt.Sprintf("%d X-Maddy-Sender fields for sender %q", len(v), g.xs))
+		} else if _, a := vdsn.SplitTyped(v[0]); !vdsn.SameMailbox(a, g.xs) {
+			out.Violation("C18/sender-address-altered", op, fmt.Sprintf("sender %q shown as %q", g.xs, a))
+		}
+	}
+	if got := p.Top.Get("To"); vdsn.CanonWs(got) != vdsn.CanonWs(g.to) {
+		out.Violation("C18/report-header-to", op, fmt.Sprintf("To: %q, envelope says %q", got, g.to))
+	}
+	for _, rc := range g.rcpts {
+		if vdsn.NonNFCLocal(rc.final) {
+			out.Stat("gen.rcpt.local-part-not-nfc")
+			break
+		}
+	}
+	if vdsn.NonNFCLocal(g.xs) {
+		out.Stat("gen.sender.local-part-not-nfc")
+	}
+	for _, rc := range g.rcpts {
+		if strings.EqualFold(rc.final, "postmaster") {
+			out.Stat("gen.rcpt.domainless-postmaster")
+			break
+		}
+	}
 	seen := map[string]bool{}
 	for _, rc := range g.rcpts {
 		if seen[strings.ToLower(rc.final)] {
@@ -245,6 +285,10 @@ func c18GenCase(r *vh.Rng) *c18Gen {
 			if r.Chance(50) && strings.HasPrefix(prev, "u") {
 				rc.final = strings.ToUpper(prev) // u1@example.org / U1@EXAMPLE.ORG
 			}
+		}
+		if r.Chance(3) {
+			// the domain-less postmaster (address.Split's special case; EqualFold also takes U+017F for s)
+			rc.final = r.Pick("postmaster", "Postmaster", "POSTMASTER", "po\u017ftmaster", "postmaster@", "@example.org")
 		}
 		if r.Chance(3) {
 			rc.final = ""
